@@ -111,7 +111,7 @@ def coq_bad_indices(tag, imports, defs, ctype, check, cases, shard=400, timeout=
     shards = [cases[i:i + shard] for i in range(0, len(cases), shard)] or [[]]
     paths = []
     for k, sh in enumerate(shards):
-        name = f"cases_{tag}_{k}"
+        name = f"cases_{tag}_{os.getpid()}_{k}"
         path = os.path.join(CORR, name + ".v")
         body = [imports, "From Coq Require Import NArith ZArith List Bool.", "Import ListNotations.",
                 defs, f"Definition the_cases : list ({ctype}) := ["]
@@ -152,7 +152,7 @@ def coq_bad_indices(tag, imports, defs, ctype, check, cases, shard=400, timeout=
 def coq_eval(tag, imports, defs, term, timeout=600):
     """Evaluate one closed term and return Coq's printed result (text after '=')."""
     os.makedirs(CORR, exist_ok=True)
-    path = os.path.join(CORR, f"eval_{tag}.v")
+    path = os.path.join(CORR, f"eval_{tag}_{os.getpid()}.v")
     with open(path, "w") as f:
         f.write("\n".join([imports, "From Coq Require Import NArith ZArith List Bool.", "Import ListNotations.", defs,
                            f"Eval vm_compute in ({term})."]) + "\n")
